@@ -5,7 +5,7 @@ patch=$(readlink -f "$1"); tier=$2; shift 2
 d=$(mktemp -d /tmp/seedtry.XXXXXX)
 cp -r /repo/adb_shell /repo/tests "$d"/ 
 (cd "$d" && patch -s -p1 < "$patch")
-cd /verif
+cd "$(dirname "$(readlink -f "$0")")/.."
 rc_all=0
 for c in "$@"; do
   set +e
